@@ -5,7 +5,8 @@ configured directory and walking its segments never climbs above it); a Kani stu
 The obligation is that LocalLoader::get establishes it at the call site.
 Bounded (representatives): CBMC does not finish on symbolic suffixes (std::path component parsing; measured
 50 min for 3 symbolic bytes), so the obligation is checked for concrete IRIs covering each escape class:
-plain, leading '/', '..', inner '../..', './' and empty segments, fragment, IRI outside the namespace.
+plain, leading '/', '..', inner '../..', './' and empty segments, fragment, IRI outside the namespace,
+percent-encoded dots and slashes.
 """
 import json
 from engine import core, overlay, native, kani_unit
@@ -18,7 +19,8 @@ ID = "C19"
 REPS = [("c19_rep_plain", "x:/a/b"), ("c19_rep_leading_slash", "x://etc/p"), ("c19_rep_dotdot", "x:/../p"),
         ("c19_rep_inner_dotdot", "x:/a/../../p"), ("c19_rep_dot_and_empty", "x:/./a//b"), ("c19_rep_fragment", "x:/a#../../p"),
         ("c19_rep_outside_namespace", "y:/a"), ("c19_rep_curdir_then_parent", "x:/./../p"), ("c19_rep_curdir_empty_parent", "x:/.//../p"),
-        ("c19_rep_balanced_then_parent", "x:/a/./../../p")]
+        ("c19_rep_balanced_then_parent", "x:/a/./../../p"),
+        ("c19_rep_pct_dotdot", "x:/%2e%2e/p"), ("c19_rep_pct_mixed_dotdot", "x:/.%2E/p"), ("c19_rep_pct_slash", "x:/..%2fp")]
 # IRIs that must still be SERVED (std::fs::read reached, cover required) vs IRIs that may be refused before any read
 MUST_REACH = {"c19_rep_plain", "c19_rep_dot_and_empty", "c19_rep_fragment"}
 HARNESSES = [H(n, "LocalLoader::get(%s) with namespace x:/ -> /r: every path handed to std::fs::read satisfies confined(path, /r)%s" % (iri, " and the read IS attempted" if n in MUST_REACH else ""),
